@@ -22,6 +22,7 @@ func init() {
 
 func runC08(p *eng.Prog, r *eng.Report, tier string) {
 	c := &cx{p, r, tier}
+	importRules(c, "C06", []string{"C06.6"}, "C08.30")
 	r18HandOffComparesWholeNames(c, "C08.29")
 	r18HandlerWriterClosedOnEveryPath(c, "C08.28")
 	r17ReaderHandsOnTheDecodersError(c, "C08.27")
